@@ -17,11 +17,14 @@ LEAN_TARGETS = ['PxProofs.C05']
 THEOREMS = [
     'Px.Exec.C05_reach_inv', 'Px.Exec.C05_alive', 'Px.Exec.C05_alive_forever', 'Px.Exec.C05_reap_alive',
     'Px.Exec.C05_others_survive', 'Px.Exec.C05_arrive_guard_witness',
+    'Px.Exec.C05_noninterference', 'Px.Exec.C05_noninterference_solo',
 ]
 RULE = ('hist: random histories of scripted works (arbitrary get_events / task / shutdown behaviour, descriptor '
         'reuse, stale and foreign descriptors) grown adaptively against the live executor, replayed on the real '
         'LocalFdExecutor and on the model; sel: random selector/kernel op traces on real socketpairs; real: '
-        'multi-connection scenarios with real handlers; distinct by canonical JSON; non-trivial = hist with a '
+        'multi-connection scenarios with real handlers (correspondence line = refinement check: every call of the '
+        'real handlers is recorded as abstract work behaviour and the model must predict bookkeeping and delivered '
+        'events of every round); distinct by canonical JSON; non-trivial = hist with a '
         'cleanup or a failed refresh, or real scenario with an adversarial connection')
 ASSUMPTIONS = [
     'works raise Exception subclasses only (not BaseException such as CancelledError / KeyboardInterrupt)',
@@ -44,8 +47,8 @@ def impl(case):
     if k == 'sel':
         return S.sel_impl(case)
     if k == 'real':
-        S.run_real(case)
-        return ['']
+        # refinement: the real handlers, recorded as abstract works, fed to the model (returns 'ok')
+        return [S.refine_real(case)]
     raise ValueError(k)
 
 
@@ -56,7 +59,7 @@ def model_lines(case):
     if k == 'sel':
         return S.sel_model_lines(case)
     if k == 'real':
-        return ['exec %d' % S.BASE]
+        return ['exec 0 nop']
     raise ValueError(k)
 
 
@@ -127,6 +130,8 @@ def _special(i, raw, more=()):
     return {'role': 'fwd', 'i': i, 'adv': 1, 'kind': 'special', 'steps': [['cs', raw.hex()]] + [list(s) for s in more]}
 
 
+# D12c (fixed by 361b8e9): a kept-alive reverse-proxy connection left a stale descriptor registered which
+# shadowed the canary's new upstream socket; the canary (index 1) must now complete as when alone
 D12C_WITNESS = {'kind': 'real', 'conns': [_canary('rev', 0), _canary('rev', 1), _revka(2), _canary('web404', 3)],
                 'sched': [0, 3, 2, 0, 3, 2, 2, 1, 0, 0, 2, 3, 1, 1, 1, 2, 2]}
 
@@ -165,6 +170,7 @@ def corpus():
             _special(0, b'POST http://up0.example:8000/ HTTP/1.1\r\nHost: h\r\nTransfer-Encoding: chunked\r\n\r\n-1\r\nabc\r\n0\r\n\r\n'),
             _canary('tun', 1)], 'sched': [0, 0, 1, 1, 1, 1, 1, 1, 1]},
     ]
+    cs.append(D12C_WITNESS)
     return cs
 
 
@@ -191,20 +197,6 @@ def search(rng):
     out = [S.gen_hist(rng, nrounds=10, adversarial=0.6) for _ in range(300)]
     out += [S.gen_real(rng) for _ in range(1500)]
     return out
-
-
-def classify(case, sig):
-    """D12c: a reverse-proxy connection that sends a second request on the kept-alive connection leaves a
-    stale descriptor registered, which can shadow another connection's new upstream socket"""
-    if case['kind'] == 'real' and sig in ('canary-stalled', 'canary-upstream-bytes-differ'):
-        for c in case['conns']:
-            if not c.get('canary') and sum(1 for s in c['steps'] if s[0] == 'cs') >= 2:
-                return 'D12c'
-    return None
-
-
-def finding_witnesses():
-    return {'D12c': D12C_WITNESS}
 
 
 def describe(case):
